@@ -4,5 +4,6 @@ CONSTANTS
   RethrowUnmatched = TRUE
   FinallyAlways = TRUE
   ObjectMatch = TRUE
+  ObjectMatchValues = TRUE
   ShardK = 0
   ShardN = 1
